@@ -17,7 +17,7 @@ LEVEL_TEXT = ("Exhaustive for the induced map (24 x 15 x all digits, normal mode
               "seeds {0, 1, 2021, 2^31-1, 2^32-1, random}. Held on all of them.")
 LEVEL_NOTE = ("'No effect other than on the global random state' is observed through digests of the dsw module globals and CPython "
               "audit events (file / process / network); effects that raise no audit event are out of reach.")
-PLAN = {"quick": dict(shards=16, budget=40), "thorough": dict(shards=16, budget=300)}
+PLAN = {"quick": dict(shards=16, budget=100), "thorough": dict(shards=16, budget=300)}
 EXHAUSTIVE = ["24 permutations x 15 live-arc patterns x every digit"]
 RULE = ("create_random_shuffles(k, seed): shape (4^k, 4), every row a permutation of 0..3, equal tables for equal seeds whatever "
         "the RNG did before, unchanged module globals, no audit events. Induced map at a vertex with live-arc pattern P under a "
